@@ -27,7 +27,7 @@ func runC02(c *Ctx) error {
 	}
 	iters := 40
 	if !c.quick() {
-		iters = 600
+		iters = 1800
 	}
 	for it := 0; it < iters; it++ {
 		bits := 8 + it%8
@@ -223,7 +223,7 @@ func runC02(c *Ctx) error {
 func runC02Inbound(c *Ctx) error {
 	iters := 24
 	if !c.quick() {
-		iters = 300
+		iters = 1500
 	}
 	for it := 0; it < iters; it++ {
 		server := it%2 == 0
